@@ -48,7 +48,7 @@ def gen(rng, i, tier):
                     acts.append((1, rng.randrange(nm)))
             bypos[p] = (rng.random() < 0.7, None, acts)
         elif x < 0.13:
-            bypos[p] = (True, (3 + p % 2, 1), [])
+            bypos[p] = (True, flat.pick_exn(p + i), [])
         elif x < 0.35:
             bypos[p] = (rng.random() < 0.7, None, [])
     if i % 6 == 4 and nm >= 2:
@@ -106,7 +106,7 @@ def impl_queue(case):
     tr = flat._import_transitions()
     world = flat.World(case['env'], case['machine']['send'])
     world.state_of = flat.state_int
-    models = [flat.Model() for _ in case['models']]
+    models = [flat.new_model(k) for k, _ in enumerate(case['models'])]
     for (k, _), mod in zip(case['models'], models):
         world.model_ids[id(mod)] = k
     cname = case.get('cls', 'Machine')
@@ -324,7 +324,7 @@ def gen_hsm_queue(rng, i):
                     acts.append((1, rng.randrange(nm)))
             bypos[p] = (rng.random() < 0.7, None, acts)
         elif x < 0.12:
-            bypos[p] = (True, (3 + p % 2, 1), [])
+            bypos[p] = (True, flat.pick_exn(p + i), [])
         elif x < 0.35:
             bypos[p] = (rng.random() < 0.7, None, [])
     c['env'] = dict(default=c['env']['default'], bypos=bypos,
@@ -361,7 +361,7 @@ def impl_hsm_queue(case):
     flat._import_transitions()
     world = flat.World(case['env'], case['machine']['send'])
     cname = case['cls']
-    models = [flat.Model() for _ in case['models']]
+    models = [flat.new_model(k) for k, _ in enumerate(case['models'])]
     base_recorder = world.recorder
 
     def named(slot, cb, model_of_call=None):
